@@ -12,7 +12,7 @@ RULE = (
     "Non-trivial = the handler outcome is not a plain successful return, or neighbours ran concurrently; distinct = distinct cells / distinct mixes of outcome kinds"
 )
 ASSUMPTIONS = ["handlers raising BaseException subclasses (CancelledError, KeyboardInterrupt) are outside 'any other exception'"]
-REQUIRED_MONITORS = {"one_final_response": 500, "code_and_payload": 500, "no_leak": 500, "neighbour_unaffected": 100, "later_request": 16, "no_site": 8, "neighbour_transport_failure": 30, "same_reaction_alone": 300, "response_usable": 500, "handler_suppressed": 30}
+REQUIRED_MONITORS = {"one_final_response": 500, "code_and_payload": 500, "no_leak": 500, "neighbour_unaffected": 100, "later_request": 16, "no_site": 8, "neighbour_transport_failure": 30, "same_reaction_alone": 300, "response_usable": 500, "handler_suppressed": 30, "observable_resource": 60}
 EXHAUSTIVE = {"outcome_table": "every outcome kind x 7 methods (+1 unassigned method code) x CON/NON x {before, after} the empty ACK"}
 
 METHODS = [1, 2, 3, 4, 5, 6, 7]
@@ -156,8 +156,21 @@ def build_site(loop, hlog):
         async def render_get(self, request):
             return aiocoap.Message(payload=b"getonly")
 
+    class ObsDecline(R.ObservableResource):
+        """an observable resource that does not take up the observation it is offered (which is its right)"""
+
+        render_get = render_post = render_put = render_delete = render_fetch = render_patch = render_ipatch = Outcome._handle
+
+        async def add_observation(self, request, serverobservation):
+            pass
+
+    class ObsAccept(R.ObservableResource):
+        render_get = render_post = render_put = render_delete = render_fetch = render_patch = render_ipatch = Outcome._handle
+
     site = R.Site()
     site.add_resource(["o"], Outcome())
+    site.add_resource(["od"], ObsDecline())
+    site.add_resource(["oa"], ObsAccept())
     site.add_resource(["getonly"], GetOnly())
     return site, names
 
@@ -205,8 +218,12 @@ def run_requests(reqs, seed, rep, case, with_site=True, fault=None):
                 await asyncio.sleep(q["t"] - now)
                 now = q["t"]
             path = {"o": b"o", "getonly": b"getonly", "missing": b"nope"}[q["kind"]]
+            opts = ((11, path),)
+            if q.get("obs") and q["kind"] == "o":
+                # the same outcomes behind an observable resource (declining / accepting), asked for with Observe: 0
+                opts = ((6, b""), (11, b"od" if q["obs"] == "decline" else b"oa"))
             payload = b"%d;%s;%d" % (q.get("outcome", 0), repr(q["delay"]).encode(), q["serial"])
-            peers[q["peer"]].send(S, rc.Msg(q["type"], q["method"], 0x100 + (q["serial"] % 0x7000), bytes([0xC0, q["serial"] & 0xFF, (q["serial"] >> 8) & 0xFF]), ((11, path),), payload))
+            peers[q["peer"]].send(S, rc.Msg(q["type"], q["method"], 0x100 + (q["serial"] % 0x7000), bytes([0xC0, q["serial"] & 0xFF, (q["serial"] >> 8) & 0xFF]), opts, payload))
         await asyncio.sleep(3.0)
         # a later, ordinary request must be answered normally
         peers[0].send(S, rc.Msg(rc.CON, 1, 0xFFF0, b"\xee\xee", ((11, b"o"),), b"0;0.0;9999"))
@@ -351,13 +368,23 @@ def run_shard(shard, rep, only=None):
         for typ in (rc.CON, rc.NON):
             cells.append(("getonly", 0, method, typ, 0.0))
             cells.append(("missing", 0, method, typ, 0.0))
-    for ci, (kind, oi, method, typ, delay) in enumerate(cells):
+    ncells_plain = len(cells)
+    for oi, name in enumerate(names):
+        for typ in (rc.CON, rc.NON):
+            for delay in (0.0, 0.3):
+                for obs in ("decline", "accept"):
+                    cells.append(("o", oi, 1, typ, delay, obs))
+    for ci, cell in enumerate(cells):
+        kind, oi, method, typ, delay = cell[:5]
         if ci % of != idx:
             continue
         case = ["cell", ci]
         if only is not None and only != case:
             continue
         q = {"peer": 0, "kind": kind, "outcome": oi, "method": method, "type": typ, "delay": delay, "t": 0.0, "serial": nxt()}
+        if len(cell) > 5:
+            q["obs"] = cell[5]
+            rep.monitor("observable_resource")
         res, box = run_requests([q], shard["seed"] * 7919 + ci, rep, case)
         judge([q], res, box, rep, case, table)
         nm = names[oi] if kind == "o" else kind
